@@ -67,6 +67,8 @@ fn payload(obj: u32, class: &str, seed: u64) -> Vec<u8> {
         // a complete, valid stream of the codec as the payload (a double decode would change it)
         "gzfull" => cbh_codec::compress(&random(&mut rng, 100)),
         "big" => random(&mut rng, 4 << 20),
+        // stored form larger than a 64 KiB file-size limit but within one write buffer of the async file (2 MiB)
+        "mid" => random(&mut rng, 300 << 10),
         "huge" => random(&mut rng, 24 << 20),
         // highly compressible payloads whose length sits on / just past a multiple of the 32 KiB deflate window
         c if c.starts_with("rep") => vec![b'A' + (obj % 7) as u8; c[3..].parse().expect("repN")],
@@ -461,7 +463,12 @@ fn cmd_efbig(out: &str, work: &str) {
     let tr = Tracer::create(out);
     let work = PathBuf::from(work);
     let seed = vrt::seed_from_env();
-    for (idx, (init, kind)) in [("empty", "put"), ("old", "puto"), ("empty", "puto"), ("old", "put")].iter().enumerate() {
+    // "big": the fault hits an early chunk of several; "mid": the whole stored form is one (the last) buffered chunk
+    let cases: Vec<(&str, &str, &str)> = ["big", "mid"]
+        .iter()
+        .flat_map(|c| [("empty", "put", *c), ("old", "puto", *c), ("empty", "puto", *c), ("old", "put", *c)])
+        .collect();
+    for (idx, (init, kind, class)) in cases.iter().enumerate() {
         let sb = Sandbox::new(&work, &format!("f{idx}"));
         let st = verif::local_storage(sb.root.clone());
         let init_val = if *init == "old" {
@@ -473,7 +480,7 @@ fn cmd_efbig(out: &str, work: &str) {
         tr.emit(&json!({"ev":"reset","init":init_val,"class":"efbig","kindof":kind,"initk":init}));
         tr.emit(&json!({"ev":"inv","t":1,"kind":kind,"obj":11}));
         let outp = Command::new(self_exe())
-            .args(["child-op", sb.root.to_str().unwrap(), kind, "11", "big", &seed.to_string()])
+            .args(["child-op", sb.root.to_str().unwrap(), kind, "11", class, &seed.to_string()])
             .env("H_STORE_FSIZE", "65536")
             .env_remove(verif::CRASH_AT_VARIABLE)
             .stdout(Stdio::piped())
@@ -488,7 +495,7 @@ fn cmd_efbig(out: &str, work: &str) {
             tr.emit(&json!({"ev":"res","t":1,"r":v["r"],"obj":v["obj"],"junk":v["junk"]}));
         }
         let insp = Command::new(self_exe())
-            .args(["inspect", sb.root.to_str().unwrap(), &seed.to_string(), "11", "big"])
+            .args(["inspect", sb.root.to_str().unwrap(), &seed.to_string(), "11", class])
             .env_remove(verif::CRASH_AT_VARIABLE)
             .env_remove("H_STORE_FSIZE")
             .output()
@@ -500,7 +507,7 @@ fn cmd_efbig(out: &str, work: &str) {
         let (files, temps, outside) = sb.survey();
         tr.emit(&json!({"ev":"tree","files":files,"temps":temps,"outside":outside,"crashes":0}));
     }
-    println!("{}", json!({"scenarios":4}));
+    println!("{}", json!({"scenarios":cases.len()}));
 }
 
 /// fresh process: look at the store through the public operations only
